@@ -282,6 +282,10 @@ class Interp:
                 if isinstance(base, DtValue) and isinstance(e.args[1], ast.Constant) and e.args[1].value == "time":
                     if base.name == "DTSTART":
                         return "TIME-ATTR" if self.sc.isdt else self.ev(e.args[2])
+                if isinstance(base, Term) and isinstance(e.args[1], ast.Constant) and e.args[1].value == "time":
+                    # a value that went through tzify() is always a datetime (as_tz_aware_ts combines dates with
+                    # midnight), so it has a .time attribute whatever the property's value type was
+                    return "TIME-ATTR"
                 self.fail(e, "getattr")
             if d == "isinstance" and len(e.args) == 2:
                 base = self.ev(e.args[0])
